@@ -76,8 +76,8 @@ var frameRe = regexp.MustCompile(`(?m)^(mellium\.im/xmpp[^\s(]*(?:\(\*?[A-Za-z0-
 func libFrame(stack string) string {
 	for _, m := range frameRe.FindAllStringSubmatch(stack, -1) {
 		fn, file := m[1], m[2]
-		if strings.HasPrefix(fn, "mellium.im/xmpp/internal/verifhook") {
-			continue
+		if strings.HasPrefix(fn, "mellium.im/xmpp/internal/verifhook") || strings.Contains(fn, ".Must") {
+			continue // Must* helpers panic by design: the frame of interest is their caller
 		}
 		rest := strings.TrimPrefix(fn, "mellium.im/xmpp")
 		pkg, name := "", strings.TrimPrefix(rest, ".")
